@@ -786,7 +786,7 @@ func isLogPkg(path string) bool {
 
 var pureExternalPrefixes = []string{"fmt.", "errors.", "github.com/friendsofgo/errors.", "github.com/pkg/errors.", "(github.com/gofrs/uuid.", "github.com/gofrs/uuid.",
 	"path.", "strings.", "strconv.", "(time.Time).", "(time.Duration).", "time.Since", "time.Now", "time.Sleep", "time.After", "context.", "(context.",
-	"(*github.com/friendsofgo/errors.", "(error).Error", "(*sync.WaitGroup).", "sync/atomic.", "(*sync.Mutex).", "(*sync.Once).", "os.", "(*os.File).", "math.", "unicode.", "bytes.", "sort.Strings", "sort.Ints",
+	"(*github.com/friendsofgo/errors.", "(error).Error", "(*sync.WaitGroup).", "sync/atomic.", "(*sync.Mutex).", "(*sync.Once).", "os.", "(*os.File).", "math.", "unicode.", "bytes.",
 	"github.com/taskctl/taskctl/pkg/", "(*github.com/taskctl/taskctl/pkg/", "(github.com/taskctl/taskctl/pkg/", "(context.Context)."}
 
 // callMods returns statically the components a call may modify (for loop havoc), or all=true.
@@ -840,6 +840,16 @@ func (tr *FnCtx) callMods(c *ssa.CallCommon) ([]Comp, bool) {
 		}
 	}
 	if h := externFor(f.String()); h != nil {
+		if strings.HasPrefix(f.String(), "sort.") && len(c.Args) > 0 {
+			var sv ssa.Value = c.Args[0]
+			if mi, ok := sv.(*ssa.MakeInterface); ok {
+				sv = mi.X
+			}
+			if sl, ok := sv.Type().Underlying().(*types.Slice); ok {
+				return tr.W.cellComps(sl.Elem()), false
+			}
+			return nil, true
+		}
 		return tr.patComps(h.mods), false
 	}
 	for _, p := range pureExternalPrefixes {
